@@ -106,6 +106,17 @@ class Scratch:
         shutil.rmtree(self.root, ignore_errors=True)
 
 
+def _pretty_with_trailing_rank(tr: Dict[str, Any], ensure_ascii: bool) -> str:
+    """The layout of a file that went through the library's own update_trace_rank() or a pretty-printer: one value per line and the
+    `distributedInfo` block *after* the event list, several thousand lines into the file (blank lines stand in for the bulk of
+    a large trace; whitespace between JSON tokens carries no meaning)."""
+    body = {k: v for k, v in tr.items() if k != "distributedInfo"}
+    s = json.dumps(body, indent=1, ensure_ascii=ensure_ascii)
+    assert s.endswith("\n}")
+    pad = "\n" * max(0, 4300 - s.count("\n"))
+    return s[:-2] + "," + pad + '\n "distributedInfo": ' + json.dumps(tr["distributedInfo"], ensure_ascii=ensure_ascii) + "\n}\n"
+
+
 def write_trace_files(dirpath: str, files: Dict[str, Any]) -> Dict[int, str]:
     """files: {filename: trace-dict}.  '.gz' names are gzip-compressed.  Returns {rank: path} using
     distributedInfo.rank when present, else enumeration order."""
@@ -117,12 +128,16 @@ def write_trace_files(dirpath: str, files: Dict[str, Any]) -> Dict[int, str]:
         # Kineto writes names as raw UTF-8; Python's json default escapes them.  Both forms occur: every other file (by name and
         # size, deterministic) is written with the characters themselves.
         raw_utf8 = (len(fname) + (len(tr.get("traceEvents", [])) if isinstance(tr, dict) else 0) + i) % 2 == 0
+        text = None
+        if isinstance(tr, dict) and isinstance(tr.get("distributedInfo"), dict) and isinstance(tr.get("traceEvents"), list) and tr["traceEvents"] \
+                and (len(fname) + len(tr["traceEvents"]) + i) % 5 == 3:
+            text = _pretty_with_trailing_rank(tr, not raw_utf8)
         if fname.endswith(".gz"):
             with gzip.open(p, "wt", encoding="utf-8") as fh:
-                json.dump(tr, fh, ensure_ascii=not raw_utf8)
+                fh.write(text) if text is not None else json.dump(tr, fh, ensure_ascii=not raw_utf8)
         else:
             with open(p, "w", encoding="utf-8") as fh:
-                json.dump(tr, fh, ensure_ascii=not raw_utf8)
+                fh.write(text) if text is not None else json.dump(tr, fh, ensure_ascii=not raw_utf8)
         r = tr.get("distributedInfo", {}).get("rank", i) if isinstance(tr, dict) else i
         out[int(r)] = p
     return out
